@@ -545,8 +545,14 @@ impl PersistBackend for FilePersist {
             .collect();
         consolidate(&mut filtered);
 
-        // Remember old batch refs for cleanup after the new batch is durable
-        let old_batches: Vec<BatchRef> = state.meta.batches.drain(..).collect();
+        // Remember old batch refs for cleanup after the new batch is durable. The in-memory
+        // metadata is only replaced once the new metadata is on disk: if writing the batch or the
+        // metadata fails, the shard must keep referencing its old batches - otherwise the next
+        // flush would persist a batch list without them and the next start-up would delete them
+        // as orphans.
+        let old_batches: Vec<BatchRef> = state.meta.batches.clone();
+        let mut new_meta = state.meta.clone();
+        new_meta.batches.clear();
 
         // Step 1: Write new compacted batch FIRST (crash-safe ordering)
         // If we crash here, old batches still exist and metadata still points to them.
@@ -554,7 +560,7 @@ impl PersistBackend for FilePersist {
             let batch = Batch::new(filtered.clone());
             let (batch_id, path) = self.write_batch(&filtered)?;
 
-            state.meta.add_batch(BatchRef {
+            new_meta.add_batch(BatchRef {
                 id: batch_id,
                 path,
                 lower: batch.lower,
@@ -565,8 +571,15 @@ impl PersistBackend for FilePersist {
 
         // Step 2: Update metadata atomically (write-to-temp+rename in save_shard_meta)
         // After this succeeds, metadata points to the new batch only.
-        state.meta.advance_since(new_since);
-        self.save_shard_meta(&state.meta)?;
+        new_meta.advance_since(new_since);
+        if let Err(e) = self.save_shard_meta(&new_meta) {
+            // Metadata save failed - clean up the orphaned compacted batch file
+            for batch_ref in &new_meta.batches {
+                let _ = fs::remove_file(&batch_ref.path);
+            }
+            return Err(e);
+        }
+        state.meta = new_meta;
 
         // Step 3: Delete old batch files LAST (safe - metadata no longer references them)
         // If we crash here, we have orphaned files but no data loss.
